@@ -36,6 +36,7 @@ def check(m, run):
     _sd.a34s(m, run)
     _sd.rq2(m, run)
     sem_ok = all(o.ok for o in run.obs[n0:])
+    _sd.bf3(m, run)       # the derivative tables the evaluators combine are the exact derivatives of the Cox-de Boor polynomials (shared with C03)
     with run.corroborating(sem_ok, 'A36S/A34S/RQ2', rules=('AX6.table-order', 'BC1.basis-control-pairing', 'RQ1.quotient-rule', 'A34.alternative-evaluator')):
         ax6(m, run, [ev('SurfaceEvaluator'), ev('SurfaceEvaluator2')])
         bc1(m, run, [ev(c) for c in ('CurveEvaluator', 'SurfaceEvaluator')])
